@@ -1,6 +1,5 @@
 use std::collections::HashMap;
 
-use quote::quote;
 use syn::{Data, DeriveInput, Field, Meta, Path, Type};
 
 use super::{
